@@ -35,7 +35,7 @@ func init() {
 		ID: "C19", Gen: genC19, Run: runC19, Quick: 1500, Thorough: 300000,
 		Real: []string{"pkg/kafka/producer: PublishIPFIXMessages, SendFlowMessage (length prefix + proto.Marshal), both shipped convertors (FlowType1, FlowType2)", "pkg/kafka/consumer DecodeAndPrintMsg", "generated protobuf types"},
 		Stub: []string{"Kafka broker and sarama's asynchronous producer (simbroker behind the library's SetSaramaProducer seam: stalls its input, encodes values late, delays acks)", "wall clock (synctest bubble)"},
-		Rule: "streams of template and data messages with 0..5 records of seeded values (IPv4 and IPv6, short and long strings) through the real publish path into a broker stub that stalls and encodes late; published payloads compared with the records (count, order, topic, 4-byte length prefix, protobuf fields, consumer-side decode); non-trivial = at least 2 data records published; distinct = distinct event-log hash",
+		Rule: "streams of template and data messages with 0..5 records of seeded values (IPv4 and IPv6, short and long strings) through the real publish path into a broker stub that stalls and encodes late; a sixth of the plans run two PublishIPFIXMessages loops on one producer (count, per-stream order, a publisher that never returns); published payloads compared with the records (count, order, topic, 4-byte length prefix, protobuf fields, consumer-side decode); non-trivial = at least 2 data records published; distinct = distinct event-log hash",
 	})
 }
 
@@ -358,6 +358,14 @@ func runC19(pl *plan.Plan, out *plan.Outcome) {
 		}
 	})
 	res := env.Run()
+	if res == "stuck" && out.Trouble == "" {
+		// the broker takes every message it is offered and acknowledges it at once (when asked to),
+		// its channels are unbuffered - a legal ChannelBufferSize of 0: a publisher that cannot go on
+		// is waiting for something that will never come
+		env.Violate("publish-never-returns", "", "PublishIPFIXMessages cannot go on (acknowledgements %v): %d Kafka messages published, the publisher waits for ever", successes, len(got))
+		out.Hash = fmt.Sprintf("%s-stuck", out.Hash)
+		return
+	}
 	if res != "done" && out.Trouble == "" {
 		out.Trouble = "run ended: " + res
 		return
